@@ -39,9 +39,12 @@
   * `functor_eval_type`, `functor_ty_monoidal`, `obj_to_dim_ignores_z`.
 
   NOT PROVED as Lean theorems (oracle of harness/props/c09.py only):
-  * invariance under interchange / normal form: needs the SMC layer-exchange lemma (C05/C06)
-    instantiated at tensors; the algebra it needs is proved under C08 (`interchange_law`, unit
-    laws).  By `functor_eval_eq_layers` it is a statement about `layerwise` alone.
+  * invariance under interchange / normal form as a statement about `Diagram.interchange` /
+    `normal_form`: the mathematical core IS proved — `tensor_layer_exchange` (two layers on
+    disjoint wires commute, as an equality of tensors) together with `functor_eval_eq_layers`
+    and the strict-monoidal laws of C08 (`then_assoc`, `tensor_monoid`, `interchange_law`,
+    unit laws: tensors form an instance of the SMC algebra of DESIGN 5.2) — but the plumbing
+    through `Diagram.interchange`'s list surgery (C05: `interchange_refines`) is not done here.
   * spiders, bubbles, sums: a spider is a generator whose array is `Tensor.spiderArray`
     (recorded in the model, covered as a generator); bubbles (`map func`) and sums
     (`Tensor.add` fold) are not part of `TFunctor.call`; the harness checks them on real code.
@@ -49,6 +52,7 @@
     prove, the harness checks it.
 -/
 import Proofs.TensorFunctor
+import Proofs.TensorExchange
 import Proofs.GaussInt
 
 namespace DV.C09
@@ -104,6 +108,17 @@ theorem call_ofBox (F : TFunctor R) (b : Box) (hk : b.kind ≠ .swap) (hb : BoxO
       have : b' = b := by simpa [Diagram.ofBox] using hb'
       rw [this]; exact hb)]
   exact layerwise_ofBox F b hb
+
+/-- The exchange law behind invariance under interchange, for tensors: two layers whose boxes
+    act on disjoint wires commute (`f : A → B` left of `g : C → D`, any `L`, `M`, `Rr`):
+    `(L ⊗ f ⊗ M ⊗ C ⊗ Rr) ≫ (L ⊗ B ⊗ M ⊗ g ⊗ Rr) = (L ⊗ A ⊗ M ⊗ g ⊗ Rr) ≫ (L ⊗ f ⊗ M ⊗ D ⊗ Rr)`.
+    By `functor_eval_eq_layers` this is what one adjacent interchange does to the evaluation. -/
+theorem tensor_layer_exchange (L M Rr : List Nat) (f g : Tensor R) (hf : f.WF) (hg : g.WF) :
+    Tensor.thenCore (Tensor.layerT L ((M ++ g.dom) ++ Rr) f)
+        (Tensor.layerT ((L ++ f.cod) ++ M) Rr g)
+      = Tensor.thenCore (Tensor.layerT ((L ++ f.dom) ++ M) Rr g)
+          (Tensor.layerT L ((M ++ g.cod) ++ Rr) f) :=
+  Tensor.layer_exchange L M Rr f g hf hg
 
 /-- The result of evaluation has the type the functor assigns to the diagram. -/
 theorem functor_eval_type (F : TFunctor R) (d : Diagram) (t : Tensor R) (h : F.call d = .ok t) :
